@@ -70,10 +70,7 @@ pub fn all() -> Vec<Prop> {
 /// crash points, ...).  Each property module that needs one adds an arm here.
 pub fn helper_main(args: &[String]) -> i32 {
     match args.first().map(|s| s.as_str()) {
-<<<<<<< HEAD
-<<<<<<< HEAD
         Some("fault-save") => crate::gen::faultsave::helper_fault_save(&args[1..]),
-=======
         // C14/C15: vectors of the reference hash iterations, compared with Python hashlib
         // by pytools/offcrypto_selftest.py
         Some("offcrypto-vectors") => {
@@ -86,10 +83,7 @@ pub fn helper_main(args: &[String]) -> i32 {
             }
             0
         }
->>>>>>> ag-crypto
-=======
         Some("numcsv-selftest") => crate::model::selftest_numcsv::main(&args[1..]),
->>>>>>> ag-numcsv
         _ => {
             eprintln!("unknown helper {:?}", args);
             2
